@@ -366,12 +366,63 @@ func checkC04(P *Program, r *Result, tier string) {
 				}
 			}
 			r.add("STICKY", shortName(fn), "call", "an error of the source is stored in r.err before returning", P.pos(instrPos(rc)), stored, "")
+			// PROGRESS: a give-up counter of the read loop is restarted whenever the source delivered bytes
+			// (otherwise a stream that keeps making progress but inserts empty reads is cut off)
+			cnt := resultValue(rc, 0)
+			for _, hb := range fn.Blocks {
+				if !hb.Dominates(rc.Block()) || !inLoop(hb) {
+					continue
+				}
+				for _, in := range hb.Instrs {
+					ph, isPhi := in.(*ssa.Phi)
+					if !isPhi {
+						break
+					}
+					if !isInteger(ph.Type()) || !comparedWithConst(ph) {
+						continue
+					}
+					// a counter: starts at a constant, some back edge increments it
+					isCounterLike := false
+					for _, e := range ph.Edges {
+						if bo, ok := e.(*ssa.BinOp); ok && bo.Op == token.ADD && bo.X == ssa.Value(ph) {
+							isCounterLike = true
+						}
+					}
+					if !isCounterLike {
+						continue
+					}
+					okReset, detail := false, "no back edge of the read loop restarts the counter after a non-empty read"
+					for i, p := range hb.Preds {
+						if !hb.Dominates(p) {
+							continue // entry edge
+						}
+						progress := false
+						for _, dc := range blockConds(p, hb, 0) {
+							if bo, ok := dc.Cond.(*ssa.BinOp); ok && cnt != nil && bo.X == cnt {
+								if k, isC := constInt(bo.Y); isC && k == 0 && ((bo.Op == token.GTR && dc.Truth) || (bo.Op == token.LEQ && !dc.Truth) || (bo.Op == token.EQL && !dc.Truth) || (bo.Op == token.NEQ && dc.Truth)) {
+									progress = true
+								}
+							}
+						}
+						if !progress {
+							continue
+						}
+						if k, isC := constInt(ph.Edges[i]); isC && k == 0 {
+							okReset, detail = true, ""
+						} else {
+							okReset, detail = false, "after a read that delivered bytes the loop continues with the counter not restarted"
+							break
+						}
+					}
+					r.add("PROGRESS", shortName(fn), "loop", "the empty-read counter that ends the fill loop is restarted by every read that delivers bytes", P.pos(instrPos(rc)), okReset, detail)
+				}
+			}
 			// WINDOW/extend: the target is buf[len:cap] and the buffer is extended by exactly the reported count
 			tgt := fa.sliceDesc(rc.Common().Args[0])
 			cur := cellSliceAt(fa, rc, "buf")
 			okT := tgt != nil && cur != nil && tgt.Root != nil && isLoadOfField(fn, tgt.Root, "buf") && fa.proveEq(tgt.Off, cur.Len, rc.Block()) && fa.prove(ineqLE(tgt.Off.add(tgt.Len), cur.Cap), rc.Block(), rootCtx)
 			r.add("WINDOW", shortName(fn), "call", "the source writes into buf[len:cap] only (after the unread window)", P.pos(instrPos(rc)), okT, "")
-			cnt := resultValue(rc, 0)
+			cnt = resultValue(rc, 0)
 			ext := false
 			for _, st := range storesTo(fn, "buf") {
 				if !instrDominates(rc, st) || st.Block() != rc.Block() {
@@ -533,3 +584,22 @@ func classifyBufStore(fa *FA, st *ssa.Store) (kind string, ok bool, detail strin
 }
 
 func init() { register("C04", "other", checkC04) }
+
+// comparedWithConst: v is compared with an integer constant somewhere (a loop bound).
+func comparedWithConst(v ssa.Value) bool {
+	refs := v.Referrers()
+	if refs == nil {
+		return false
+	}
+	for _, r := range *refs {
+		if bo, ok := r.(*ssa.BinOp); ok {
+			switch bo.Op {
+			case token.LSS, token.LEQ, token.GTR, token.GEQ:
+				if _, isC := bo.Y.(*ssa.Const); isC && bo.X == v {
+					return true
+				}
+			}
+		}
+	}
+	return false
+}
